@@ -22,7 +22,11 @@ fn arg_val(args: &[String], name: &str) -> Option<String> {
 
 fn main() {
     let args: Vec<String> = std::env::args().collect();
-    let code = real_main(&args);
+    // a panic in the harness itself is a harness error (exit 2), never a verdict
+    let code = std::panic::catch_unwind(|| real_main(&args)).unwrap_or_else(|_| {
+        eprintln!("HARNESS ERROR: the simulator itself panicked");
+        2
+    });
     std::process::exit(code);
 }
 
@@ -58,6 +62,21 @@ fn real_main(args: &[String]) -> i32 {
             };
             let cfg = runner::RunCfg { tier, seed, jobs, scale, only_family: arg_val(args, "--family") };
             runner::run_check(&spec, &cfg)
+        }
+        "shard" => {
+            let prop = arg_val(args, "--prop").unwrap_or_default();
+            let Some(spec) = checks::spec(&prop) else { return 2 };
+            let g = |n: &str| arg_val(args, n).and_then(|s| s.parse::<u64>().ok()).unwrap_or(0);
+            runner::run_shard(
+                &spec,
+                &arg_val(args, "--family").unwrap_or_default(),
+                &arg_val(args, "--tier").unwrap_or_default(),
+                g("--seed"),
+                g("--shard"),
+                g("--of").max(1),
+                g("--count"),
+                &arg_val(args, "--stopfile").unwrap_or_default(),
+            )
         }
         "replay" => {
             let Some(p) = args.get(2) else {
